@@ -29,7 +29,11 @@ def _frame(data, cols, index, cat_cols, dtype):
     for c in cols:
         vals = data[c]
         if c in cat_cols:
-            if dtype == "str":
+            if dtype == "category":
+                # a pandas Categorical that DECLARES a category no row holds (what a filtered or split frame keeps): not a seen category
+                clean = [None if (v is None or v == "__nan__") else v for v in vals]
+                d[c] = pandas.Series(pandas.Categorical(clean, categories=sorted(set(v for v in clean if v is not None) | {"zz-declared-only"})), index=index)
+            elif dtype == "str":
                 d[c] = pandas.Series([np.nan if v is None else v for v in vals], index=index, dtype="str")
             else:
                 arr = np.empty(len(vals), dtype=object)
@@ -222,7 +226,7 @@ def _cases(draw, tier="quick"):
         opt_cols = "auto"
     elif columns == "explicit":
         opt_cols = list(cat_cols)
-        dtype = draw(st.sampled_from(["object", "str"]))
+        dtype = draw(st.sampled_from(["object", "str", "category"]))
     elif columns == "string":
         opt_cols = cat_cols[0]
     else:
